@@ -105,12 +105,38 @@ BLOCK_KIND = {'ROOM_MESSAGES': 'blocked_room', 'PRIVATE_MESSAGES': 'blocked_priv
 SET_FIELDS = {'members': ('r_members', 'set_members'), 'operators': ('r_ops', 'set_ops')}
 
 PINNED = [
-    ('room/manager.py', 'RoomManager', ['_on_room_list', '_on_join_room', '_on_chat_room_tickers', 'get_or_create_room']),
-    ('user/manager.py', 'UserManager', ['_on_privileged_users', 'get_user_object', 'get_self']),
-    ('room/model.py', 'Room', ['add_user', 'remove_user']),
-    ('user/model.py', 'User', ['update_from_user_stats']),
-    ('settings.py', 'UsersSettings', ['is_blocked']),
-]
+    # hand-modelled handlers and the helpers the generated clauses rely on
+    ('room/manager.py', 'RoomManager', ['_on_room_list', '_on_join_room', '_on_chat_room_tickers', 'get_or_create_room',
+                                        '__init__', 'register_listeners', '_on_message_received', 'reset_rooms']),
+    ('user/manager.py', 'UserManager', ['_on_privileged_users', 'get_user_object', 'get_self', 'register_listeners',
+                                        '_on_message_received', 'reset_users']),
+    ('room/model.py', 'Room', ['*']),
+    ('user/model.py', 'User', ['*']),
+    ('user/model.py', 'UserStatus', ['*']),
+    ('user/model.py', 'BlockingFlag', ['*']),
+    ('settings.py', 'UsersSettings', ['*']),
+    ('settings.py', None, ['translate_blocked_users']),
+    # delivery path: frame -> message object -> network callback -> event bus -> @on_message handler
+    ('events.py', 'EventBus', ['*']),
+    ('events.py', None, ['on_message', 'build_message_map']),
+    ('network/network.py', 'Network', ['on_message_received']),
+    ('network/connection.py', 'DataConnection', ['_message_reader_loop', '_perform_message_callback', 'receive_message_object',
+                                                 'receive_message', '_read_message', 'decode_message_data']),
+    ('network/connection.py', 'ServerConnection', ['*']),
+    ('protocol/primitives.py', 'UserStats', ['*']),
+    ('protocol/primitives.py', 'RoomTicker', ['*']),
+] + [('protocol/messages.py', f'{m}.Response', ['*']) for m in [
+    'RoomList', 'JoinRoom', 'LeaveRoom', 'UserJoinedRoom', 'UserLeftRoom', 'PrivateRoomGrantMembership', 'PrivateRoomRevokeMembership',
+    'PrivateRoomMembershipGranted', 'PrivateRoomMembershipRevoked', 'PrivateRoomMembers', 'PrivateRoomOperators',
+    'PrivateRoomGrantOperator', 'PrivateRoomRevokeOperator', 'PrivateRoomOperatorGranted', 'PrivateRoomOperatorRevoked',
+    'RoomTickers', 'RoomTickerAdded', 'RoomTickerRemoved', 'RoomChatMessage', 'PublicChatMessage', 'PrivateChatMessage',
+    'GetUserStatus', 'GetUserStats', 'AddUser', 'PrivilegedUsers', 'AddPrivilegedUser']] + [
+    # the event classes the handlers construct (field names / order of the positional ones)
+    ('events.py', e, ['*']) for e in ['RoomMessageEvent', 'PublicMessageEvent', 'PrivateMessageEvent', 'RoomJoinedEvent', 'RoomLeftEvent',
+                                      'RoomTickersEvent', 'RoomTickerAddedEvent', 'RoomTickerRemovedEvent', 'RoomMembershipGrantedEvent',
+                                      'RoomMembershipRevokedEvent', 'RoomMembersEvent', 'RoomOperatorGrantedEvent',
+                                      'RoomOperatorRevokedEvent', 'RoomOperatorsEvent', 'RoomListEvent', 'UserStatusUpdateEvent',
+                                      'UserStatsUpdateEvent', 'PrivilegedUsersEvent', 'PrivilegedUserAddedEvent']]
 
 
 # --------------------------------------------------------------------------------------
@@ -140,19 +166,47 @@ def _is_logger(call: ast.Call) -> bool:
     return isinstance(f, ast.Attribute) and isinstance(f.value, ast.Name) and f.value.id == 'logger'
 
 
-def fingerprints(src: Path) -> dict:
-    out = {}
-    for rel, cls, funcs in PINNED:
-        tree = ast.parse((src / 'aioslsk' / rel).read_text())
-        c = find_class(tree, cls)
-        for f in funcs:
-            fn = find_func(c.body, f)
-            fn = _Strip().visit(ast.parse(ast.unparse(fn)).body[0])
-            fn.returns = None
-            for a in fn.args.args + fn.args.kwonlyargs:
+def _digest(node) -> str:
+    node = _Strip().visit(ast.parse(ast.unparse(node)).body[0])
+    for n in ast.walk(node):
+        if isinstance(n, (ast.FunctionDef, ast.AsyncFunctionDef)):
+            n.returns = None
+            for a in n.args.args + n.args.kwonlyargs:
                 a.annotation = None
-            out[f'{cls}.{f}'] = hashlib.sha256(ast.dump(fn, annotate_fields=False).encode()).hexdigest()[:16]
+    return hashlib.sha256(ast.dump(node, annotate_fields=False).encode()).hexdigest()[:16]
+
+
+def fingerprint_table(src: Path, pinned) -> dict:
+    """pinned: [(file relative to aioslsk/, class or None, [names])].  With a class: methods of it, or ['*'] for the whole
+    class (fields, defaults, enum members, methods; nested 'Outer.Inner' classes allowed).  With None: module-level
+    functions / classes / assignments by name.  Docstrings and logging are removed, annotations of functions dropped."""
+    out = {}
+    trees = {}
+    for rel, cls, names in pinned:
+        tree = trees.setdefault(rel, ast.parse((src / 'aioslsk' / rel).read_text()))
+        if cls is None:
+            for nm in names:
+                found = [n for n in tree.body if getattr(n, 'name', None) == nm or
+                         (isinstance(n, (ast.Assign, ast.AnnAssign)) and nm in ast.unparse(getattr(n, 'targets', [getattr(n, 'target', None)])[0]).split())]
+                if not found:
+                    raise Refuse(f'{rel}: {nm} not found')
+                out[f'{rel}:{nm}'] = _digest(found[0])
+            continue
+        body = tree.body
+        c = None
+        for part in cls.split('.'):
+            c = find_class(ast.Module(body=body, type_ignores=[]), part)
+            body = c.body
+        if names == ['*']:
+            out[f'{cls}.*'] = _digest(c)
+        else:
+            for f in names:
+                out[f'{cls}.{f}'] = _digest(find_func(c.body, f))
     return out
+
+
+def fingerprints(src: Path) -> dict:
+    return fingerprint_table(src, PINNED)
 
 
 # --------------------------------------------------------------------------------------
